@@ -390,16 +390,16 @@ func (ls *LState) LoadFile(path string) (*LFunction, error) {
 	}
 	if c == byte('#') {
 		// Unix exec. file?
-		// skip first line
-		_, err, _ = readBufioLine(reader)
-		if err != nil {
+		// skip first line; err is io.EOF if the file ends before the line does
+		_, err = reader.ReadBytes('\n')
+		if err != nil && err != io.EOF {
 			return nil, newApiErrorE(ApiErrorFile, err)
 		}
 	}
 
 	if err != io.EOF {
 		// if the file is not empty,
-		// unread the first character of the file or newline character(readBufioLine's last byte).
+		// unread the first character of the file or the newline character that ends the skipped line.
 		err = reader.UnreadByte()
 		if err != nil {
 			return nil, newApiErrorE(ApiErrorFile, err)
